@@ -45,10 +45,17 @@ type scenario struct {
 	maxTun   int // local packets per side (at A, if maxTunB is set)
 	maxFault int
 	maxClock int
-	maxTunB  int // local packets at B; 0 = maxTun
+	maxTunB  int // local packets at B; 0 = maxTun, -1 = none
+	// skew: the clock of router "A" or "B" runs 48 hours ahead of the other's: every
+	// signed frame it originates carries a sequence time 48 h later (re-signed with
+	// its own key, as its own clock would have made it).
+	skew string
 }
 
 func (sc scenario) tunB() int {
+	if sc.maxTunB < 0 {
+		return 0
+	}
 	if sc.maxTunB > 0 {
 		return sc.maxTunB
 	}
@@ -63,6 +70,44 @@ type tworld struct {
 	// cause tracking: how each side installed its current keys.
 	install     map[string]string
 	outstanding map[string]bool // side has sent a hello request that it has not completed
+	skewed      map[*kit.Flight]bool
+	sc          scenario
+}
+
+// applySkew rewrites the signed frames the router with the fast clock has just emitted.
+func (tw *tworld) applySkew() {
+	if tw.sc.skew == "" {
+		return
+	}
+	h := tw.a
+	if tw.sc.skew == "B" {
+		h = tw.b
+	}
+	for _, fl := range tw.w.InFlight {
+		if tw.skewed[fl] || fl.From != h {
+			continue
+		}
+		tw.skewed[fl] = true
+		if netip.AddrFrom16([16]byte(fl.Bytes[16:32])) != h.Identity().IP || frame.MessageType(fl.Bytes[4]).Class() != frame.MessageClassSigned {
+			continue
+		}
+		ps := h.FrameBuilder().GetPooledSlice(len(fl.Bytes) + 28)
+		nn := copy(ps[12:], fl.Bytes)
+		f, err := h.FrameBuilder().ParseFrame(ps[12:12+nn], ps[:cap(ps)], 12)
+		must(err)
+		v1 := f.(*frame.FrameV1)
+		ttl, fc := v1.TTL(), v1.FlowControl()
+		v1.SetTTL(0)
+		v1.SetFlowControl(0)
+		v1.SetSequenceTime(v1.SequenceTime().Add(48 * time.Hour))
+		must(v1.SignRaw(h.Identity().PrivateKey))
+		v1.SetTTL(ttl)
+		v1.SetFlowControl(fc)
+		d, derr := v1.FrameDataWithMargins(0, 0)
+		must(derr)
+		fl.Bytes = append([]byte(nil), d...)
+		f.ReturnToPool()
+	}
 }
 
 func must(err error) {
@@ -97,7 +142,7 @@ func build(sc scenario) *tworld {
 		_, _, err = w.Connect(a, b, 11, 12, 5)
 		must(err)
 	}
-	return &tworld{w: w, a: a, b: b, ids: map[uint64]string{}, install: map[string]string{}, outstanding: map[string]bool{}}
+	return &tworld{w: w, a: a, b: b, ids: map[uint64]string{}, install: map[string]string{}, outstanding: map[string]bool{}, skewed: map[*kit.Flight]bool{}, sc: sc}
 }
 
 func addRoute(from, via, to *kit.Node) {
@@ -269,7 +314,9 @@ func (tw *tworld) apply(e event, n *int) {
 		cp := *fl
 		cp.Bytes = append([]byte(nil), fl.Bytes...)
 		tw.w.InFlight = append(tw.w.InFlight, &cp)
+		tw.skewed[&cp] = true
 	}
+	tw.applySkew()
 	// describe everything in flight now so that ping ids get their ordinal names in a deterministic order.
 	for _, fl := range tw.w.InFlight {
 		tw.describe(fl)
@@ -503,23 +550,31 @@ func TestC14(t *testing.T) {
 		"duplicates are byte-level copies, so the signed-frame replay filter is part of the system under test",
 	}
 	scs := []scenario{
-		{"direct/A-lower/1-initiation/1-fault", true, false, 1, 1, 0, 0},
-		{"direct/B-lower/1-initiation/1-fault", false, false, 1, 1, 0, 0},
-		{"direct/A-lower/2-initiations/0-faults/1-clock", true, false, 2, 0, 1, 0},
-		{"direct/B-lower/2-initiations/0-faults/1-clock", false, false, 2, 0, 1, 0},
-		{"relay/A-lower/1-initiation/0-faults", true, true, 1, 0, 0, 0},
+		{"direct/A-lower/1-initiation/1-fault", true, false, 1, 1, 0, 0, ""},
+		{"direct/B-lower/1-initiation/1-fault", false, false, 1, 1, 0, 0, ""},
+		{"direct/A-lower/2-initiations/0-faults/1-clock", true, false, 2, 0, 1, 0, ""},
+		{"direct/B-lower/2-initiations/0-faults/1-clock", false, false, 2, 0, 1, 0, ""},
+		{"relay/A-lower/1-initiation/0-faults", true, true, 1, 0, 0, 0, ""},
+		// one initiator behind a relay with one fault (the duplicate / loss can hit either hop).
+		{"relay/A-lower/1-initiation-at-A/1-fault", true, true, 1, 1, 0, -1, ""},
+		{"relay/B-lower/1-initiation-at-A/1-fault", false, true, 1, 1, 0, -1, ""},
 		// setup, traffic, late error, second setup on a used session.
-		{"direct/A-lower/3-packets-at-A,1-at-B/0-faults", true, false, 3, 0, 0, 1},
-		{"direct/B-lower/3-packets-at-A,1-at-B/0-faults", false, false, 3, 0, 0, 1},
+		// the clock of one router runs two days ahead of the other's.
+		{"direct/A-lower/2-initiations/0-faults/clock-of-B-48h-ahead", true, false, 1, 0, 0, 0, "B"},
+		{"direct/B-lower/2-initiations/0-faults/clock-of-A-48h-ahead", false, false, 1, 0, 0, 0, "A"},
+		{"direct/A-lower/2-initiations/0-faults/clock-of-A-48h-ahead", true, false, 1, 0, 0, 0, "A"},
+		{"direct/A-lower/1-initiation/1-fault/clock-of-B-48h-ahead", true, false, 1, 1, 0, 0, "B"},
+		{"direct/A-lower/3-packets-at-A,1-at-B/0-faults", true, false, 3, 0, 0, 1, ""},
+		{"direct/B-lower/3-packets-at-A,1-at-B/0-faults", false, false, 3, 0, 0, 1, ""},
 	}
 	cap1 := 6000
 	if env.Thorough() {
 		cap1 = 300000
 		scs = append(scs,
-			scenario{"direct/A-lower/2-initiations/1-fault/1-clock", true, false, 2, 1, 1, 0},
-			scenario{"direct/B-lower/2-initiations/1-fault/1-clock", false, false, 2, 1, 1, 0},
-			scenario{"direct/A-lower/2-initiations/2-faults/2-clocks", true, false, 2, 2, 2, 0},
-			scenario{"relay/B-lower/2-initiations/1-fault/1-clock", false, true, 2, 1, 1, 0},
+			scenario{"direct/A-lower/2-initiations/1-fault/1-clock", true, false, 2, 1, 1, 0, ""},
+			scenario{"direct/B-lower/2-initiations/1-fault/1-clock", false, false, 2, 1, 1, 0, ""},
+			scenario{"direct/A-lower/2-initiations/2-faults/2-clocks", true, false, 2, 2, 2, 0, ""},
+			scenario{"relay/B-lower/2-initiations/1-fault/1-clock", false, true, 2, 1, 1, 0, ""},
 		)
 	}
 	for _, sc := range scs {
